@@ -1,6 +1,8 @@
 package keeper
 
 import (
+	"math/big"
+
 	"github.com/ethereum/go-ethereum/common"
 	ethtypes "github.com/ethereum/go-ethereum/core/types"
 
@@ -104,7 +106,7 @@ func VerifC04Hook() {
 		}
 		return err
 	})
-	err := w.k.Hooks().PostTxProcessing(w.ctx, nil, receipt)
+	err := w.k.Hooks().PostTxProcessing(w.ctx, anyTxMessage(), receipt)
 	if !anyFromContract {
 		rt.Reach("foreign-logs-only")
 		rt.Assert("S3-foreign-logs-do-nothing", err == nil && rt.StoreWrites(w.ctx, "xibc") == 0 && len(w.evm.calls) == 0)
@@ -153,4 +155,15 @@ func VerifC04ChainInitiatedCall() {
 		rt.Reach("succeeded")
 		rt.Assert("S6-success-ran-the-hooks-once", w.evm.hookCalls == 1 && w.evm.hookFails == 0 && w.evm.failures == 0)
 	}
+}
+
+// anyTxMessage: the EVM transaction whose receipt is processed - any sender, any or no recipient (a direct call of the
+// endpoint contract, a user contract calling it in a nested call, a chain-initiated call), any call data.
+func anyTxMessage() ethtypes.Message {
+	var to *common.Address
+	if rt.Bool("tx.has-recipient") {
+		a := common.BytesToAddress(rt.BytesN("tx.to", 20))
+		to = &a
+	}
+	return ethtypes.NewMessage(common.BytesToAddress(rt.BytesN("tx.from", 20)), to, rt.U64("tx.nonce"), big.NewInt(0), rt.U64("tx.gas"), big.NewInt(0), big.NewInt(0), big.NewInt(0), rt.Bytes("tx.data"), nil, false)
 }
